@@ -16,6 +16,28 @@ SORTS = {'sort', 'sort_unstable', 'sort_by', 'sort_unstable_by', 'sort_by_key', 
 READS_CONTENT = {'index', 'first', 'get', 'iter', 'min', 'into_iter', 'last', 'get_unchecked', 'as_slice', 'deref'}
 
 
+def registry_scope(ctx):
+    """(function, index of its writable flag parameter): the function on the transaction-begin path that takes the reader-registry
+    lock -- the begin role itself, or a helper reachable only through it"""
+    if hasattr(ctx, '_reg_scope'):
+        return ctx._reg_scope
+    F = ctx.facts
+    L = c09.locks_of(ctx)
+    bf = c09.begin_fn(ctx)
+    best = None
+    if bf is not None:
+        cands = [bf] + sorted((g for g in F.reachable_fns([bf]) if g is not bf and g.kind != 'Closure'), key=lambda f: f.path)
+        for g in cands:
+            if any(name == REGISTRY_LOCK for (bb, name, mode, tok, tr) in L.info(g).sites):
+                if g is bf or _only_via(F, g, bf):
+                    best = g
+                    break
+    if best is None:
+        best = bf
+    ctx._reg_scope = (best, c09.writable_param(best) if best is not None else None)
+    return ctx._reg_scope
+
+
 def registry_holders(ctx, fn, prune=None):
     """locals of fn that hold the guard of the reader registry"""
     L = c09.locks_of(ctx)
@@ -76,9 +98,8 @@ def release_bound(ctx, rule='C03.release-bound'):
     except AnchorError as e:
         return [unresolved(rule, str(e))]
     F = ctx.facts
-    bf = c09.begin_fn(ctx)
-    wp = c09.writable_param(bf)
-    li, hs, toks = registry_holders(ctx, bf, {wp: True})
+    bf, wp = registry_scope(ctx)
+    li, hs, toks = registry_holders(ctx, bf, {wp: True} if wp else None)
     if not hs:
         return [unresolved(rule, 'reader registry guard in ' + bf.qual)]
     du = ctx.du(bf)
@@ -206,10 +227,9 @@ def release_sites(ctx, rule='C03.release-site'):
 
 def register(ctx, rule='C03.register'):
     res = []
-    bf = c09.begin_fn(ctx)
-    wp = c09.writable_param(bf)
-    li, hs, toks = registry_holders(ctx, bf, {wp: False})
-    liw, _, _ = registry_holders(ctx, bf, {wp: True})
+    bf, wp = registry_scope(ctx)
+    li, hs, toks = registry_holders(ctx, bf, {wp: False} if wp else None)
+    liw, _, _ = registry_holders(ctx, bf, {wp: True} if wp else None)
     if not hs:
         return [unresolved(rule, 'reader registry guard in ' + bf.qual)]
     du = ctx.du(bf)
@@ -272,6 +292,19 @@ def register(ctx, rule='C03.register'):
             for nme, o in zip(s['rv']['fields'], s['rv']['ops']):
                 if nme == 'meta' and op_local(o) is not None:
                     kept.add(du.root_of(op_local(o)))
+        begin = c09.begin_fn(ctx)
+        if not kept and bf is not begin:
+            # a helper: the Meta it returns is the one the begin role stores in the transaction
+            locs0, _ = du.slice_local(0)
+            kept |= {du.root_of(l) for l in locs0 if bf.locals[l]['ty'] == 'meta::Meta'}
+            dub = ctx.du(begin)
+            stored = False
+            for b2, si, s in aggregates_of(begin, 'TxInner'):
+                for nme, o in zip(s['rv']['fields'], s['rv']['ops']):
+                    if nme == 'meta' and op_local(o) is not None and has_call(dub.slice_operand(o)[1], bf.path):
+                        stored = True
+            if not stored:
+                kept = set()
         if root is None or not kept or du.root_of(root) not in kept:
             res.append(bad(rule, '%s | registered id is not the snapshot id' % bf.qual,
                            'the value inserted into the registry at %s is not a plain copy of the tx_id of the Meta the transaction keeps (source local %s, kept %s): '
